@@ -83,6 +83,7 @@ type c13Exp struct {
 	Holds    []int  `json:"holds"`    // model units: for how long the transport held each ping of the expected run
 	Durs     []int  `json:"durs"`     // model units: for how long the transport holds the ping of each script position
 	UserPlan int    `json:"userPlan"` // model units: when the owner closes the session unless keep-alive has done so
+	DLag     int    `json:"dlag"`     // model units (transport dimension): code-shaped lag of the session's end behind the model's instant
 }
 
 type c13Case struct {
@@ -94,6 +95,8 @@ type c13Case struct {
 	Hs      int      `json:"hs"`  // handshake slot: 0 before Connect returns, j after the j-th tick, -1 never
 	Cc      int      `json:"cc"`  // Connect-context slot: -1 kept alive, k cancelled after the k-th tick
 	Est     string   `json:"est"` // how the session was established: init, fallback, modern
+	Tr      string   `json:"tr"`  // transport dimension (KeepAliveTr): mem, httpc, https, sse; "" otherwise
+	Cls     []string `json:"cls"` // transport dimension: what concretely happens to ping 1, 2, ... (classes of KeepAlive.tla Part 1b)
 	Levels  []string `json:"levels"`
 	c13Exp
 }
@@ -102,6 +105,7 @@ type c13Ping struct {
 	At  int64  `json:"at"`  // when the session handed the ping to its transport (= when the peer saw it, unless held)
 	O   string `json:"o"`   // what became of it: a t m c u, l = held by the transport past its deadline
 	K   string `json:"k"`   // the script symbol (l0, l1, l2 for held pings)
+	Cls string `json:"cls"` // transport dimension: the class the scripted peer played ("" otherwise, "unscripted" beyond the script)
 	H   int64  `json:"h"`   // for how long the transport held it
 	V   string `json:"v"`   // concrete variant
 	D   int64  `json:"d"`   // answer delay (a) / late-reply delay (t)
@@ -130,6 +134,9 @@ type c13Obs struct {
 	KAEarly     int       `json:"kaEarly"`     // keep-alive goroutines alive right after the owner's Close began (settled)
 	Released    int64     `json:"released"`    // end "drain": when the handler was released (-1 otherwise)
 	KAAlive     int       `json:"kaAlive"`     // keep-alive goroutines still alive once the closing / the owner's Close had settled
+	KALate      int       `json:"kaLate"`      // the same census, taken again once the threshold's intervals and a ping timeout have passed since a session ended on its own (transport dimension; = kaAlive otherwise)
+	Tr          string    `json:"tr"`          // transport dimension: the case's transport ("" otherwise)
+	Cls         []string  `json:"cls"`         // transport dimension: the case's script of classes
 	Settle      int64     `json:"settle"`      // when that census was taken
 	Exit        string    `json:"exit"`        // "clean" or what synctest reported at bubble exit
 	Hand        string    `json:"hand"`        // handshake variant
@@ -183,7 +190,7 @@ func (r *c13Rec) census() {
 	// only when the goroutine count is off is the goroutine dump consulted
 	ka := r.kaCount(r.g0)
 	r.mu.Lock()
-	r.obs.KAAlive, r.obs.Settle = ka, r.us()
+	r.obs.KAAlive, r.obs.KALate, r.obs.Settle = ka, ka, r.us()
 	// A ping beyond the script is ignored by the peer. If it stayed unanswered for a whole
 	// ping timeout before the session ended it is, for the property, a timed-out ping (this
 	// only happens when the implementation's schedule differs from the expected one).
@@ -219,6 +226,22 @@ func (r *c13Rec) next(ctx context.Context) (c13Ping, int) {
 		p.O = "u" // beyond the script: left unresolved (the owner closes meanwhile)
 	}
 	p.K = p.O
+	if r.obs.Tr != "" {
+		// transport dimension: the case says what concretely happens to this ping
+		p.Cls = "unscripted"
+		if n < len(r.obs.Cls) {
+			p.Cls = r.obs.Cls[n]
+		}
+		p.O, p.V, p.K = c13MemPlay(p.Cls)
+		if p.V == "latereply" {
+			p.D = int64((r.ivl/2 + r.ivl/4) / time.Microsecond)
+		}
+		if r.over {
+			r.after()
+		}
+		r.obs.Pings = append(r.obs.Pings, p)
+		return p, len(r.obs.Pings) - 1
+	}
 	if strings.HasPrefix(p.O, "l") {
 		p.O, p.V = "l", "held"
 		p.H = int64(time.Duration(r.obs.Exp.Durs[n]) * r.ivl / time.Duration(r.obs.Exp.Unit) / time.Microsecond)
@@ -524,6 +547,9 @@ func (c *c13Conn) Write(ctx context.Context, msg jsonrpc.Message) error {
 				// a delivery failure of this one message (what the streamable transports report)
 				return fmt.Errorf("%w: scripted delivery failure", jsonrpc2.ErrRejected)
 			}
+		case "d":
+			// the pipe is broken: a write error that is not a rejection of this one message
+			return io.ErrClosedPipe
 		case "u":
 		}
 	case w.Method == "" && string(w.ID) == `"init"`:
@@ -772,6 +798,9 @@ func c13RunSession(r *c13Rec, thr int, level string, c c13Case) error {
 		close(release)
 	}
 	r.census()
+	if o.Tr != "" && over {
+		r.lateCensus(thr)
+	}
 	return nil
 }
 
@@ -906,7 +935,7 @@ func (w *c13Watchdog) watch() {
 }
 
 func c13Scenario(t *testing.T, c c13Case, level string, seed uint64) (o *c13Obs) {
-	o = &c13Obs{ID: c.ID, Level: level, Pattern: c.Pattern, T: c.T, End: c.End, Drain: c.Drain, Pings: []c13Ping{},
+	o = &c13Obs{ID: c.ID, Level: level, Pattern: c.Pattern, T: c.T, End: c.End, Drain: c.Drain, Pings: []c13Ping{}, Tr: c.Tr, Cls: c.Cls,
 		Attempts: []int64{}, Released: -1, Hs: c.Hs, Cc: c.Cc, HsAt: -1, CcAt: -1, Est: c.Est, Pingable: true,
 		Closed: -1, UserClose: -1, Ended: -1, Exit: "clean", Hand: "", Exp: c.c13Exp}
 	c13W.begin(fmt.Sprintf("id=%d level=%s pattern=%s T=%d end=%s drain=%d hs=%d cc=%d seed=%d", c.ID, level,
@@ -924,7 +953,10 @@ func c13Scenario(t *testing.T, c c13Case, level string, seed uint64) (o *c13Obs)
 	if o.Exp.Durs == nil {
 		o.Exp.Durs = []int{}
 	}
-	lv := map[string]uint64{"func": 1, "server": 2, "client": 3}[level]
+	if o.Cls == nil {
+		o.Cls = []string{}
+	}
+	lv := map[string]uint64{"func": 1, "server": 2, "client": 3, "httpc": 5, "https": 6, "sse": 7}[level]
 	rng := rand.New(rand.NewPCG(seed, uint64(c.ID)*4+lv))
 	ivls := []time.Duration{10 * time.Millisecond, time.Second, 20 * time.Second, 250 * time.Millisecond}
 	ivl := ivls[rng.IntN(len(ivls))]
@@ -939,10 +971,17 @@ func c13Scenario(t *testing.T, c c13Case, level string, seed uint64) (o *c13Obs)
 		r := &c13Rec{t0: time.Now(), ivl: ivl, pattern: c.Pattern, rng: rng, obs: o, abort: make(chan struct{}), endedCh: make(chan struct{})}
 		g0 := runtime.NumGoroutine()
 		r.g0 = g0
-		if level == "func" {
+		var err error
+		switch level {
+		case "func":
 			o.HsAt = 0
 			c13RunFunc(r, c.T)
-		} else if err := c13RunSession(r, c.T, level, c); err != nil {
+		case "httpc", "https", "sse":
+			err = c13RunTransport(r, c.T, level, c)
+		default:
+			err = c13RunSession(r, c.T, level, c)
+		}
+		if err != nil {
 			o.Exit = "connect: " + err.Error()
 			return
 		}
@@ -1033,8 +1072,11 @@ func TestVerif_C13(t *testing.T) {
 			t.Fatalf("bad case: %v", err)
 		}
 		for _, level := range c.Levels {
-			if level != "func" && level != "server" && level != "client" {
+			if level != "func" && level != "server" && level != "client" && !(c.Tr == level && (level == "httpc" || level == "https" || level == "sse")) {
 				t.Fatalf("bad level %q", level)
+			}
+			if c.Tr != "" && (c.Hs != 0 || c.Cc >= 0 || c.Est != "init" || c.End != "idle" || level == "func") {
+				t.Fatalf("case %d: a case of the transport dimension is a plain one otherwise", c.ID)
 			}
 			if level == "func" && (c.Hs != 0 || c.Cc >= 0) || level == "client" && c.Hs != 0 || level != "client" && c.Est != "init" {
 				t.Fatalf("case %d: level %s has no handshake slot %d / Connect context slot %d", c.ID, level, c.Hs, c.Cc)
